@@ -116,3 +116,13 @@ Theorem c10_mixed_float_separated :
     /\ ((rebase_R prec emax Hprec Hmax lib Ul Ur d b + E * Rabs (rebase_R prec emax Hprec Hmax lib Ul Ur d b) < B2R a)%R ->
        flt prec emax (change_base (CFfloat prec emax Hprec Hmax lib) Ul Ur d b) a = true).
 Proof. intros prec emax Hprec Hmax lib Ul Ur d a b t E St Fa. exact (mixed_lt_separated prec emax Hprec Hmax lib Ul Ur d a b St Fa). Qed.
+
+(* ---- the comparison methods of the source call the storage type's method of the same name on the (re-based) operand,
+   in both feature flavours (Gen/OpsSrc.v is regenerated from the source on every run) ---- *)
+From Coq Require Import String.
+From UomV Require Import Model.OpsSrc Gen.OpsSrc Spec.OpsTie.
+Definition is_comparison (e : op_src) : bool := existsb (String.eqb (os_fn e)) ["eq"; "lt"; "le"; "gt"; "ge"; "partial_cmp"]%string.
+Theorem c10_comparison_sources_call_their_own_operator :
+  forallb (fun e => negb (is_comparison e) || shape_ok e) src_ops = true
+  /\ List.length (filter is_comparison src_ops) = 12%nat.
+Proof. split; vm_compute; reflexivity. Qed.
